@@ -162,7 +162,7 @@ def main():
         json.dump(rec, open(path, "w"), indent=1, default=str)
         kf = match_known(known, pid, ob)
         if ob.get("witness") and "concretise_error" not in (ob.get("witness") or {}):
-            p = subprocess.run([sys.executable, os.path.abspath(__file__), pid, "--replay", path], capture_output=True,
+            p = subprocess.run([sys.executable, "-W", "ignore", os.path.abspath(__file__), pid, "--replay", path], capture_output=True,
                                text=True, timeout=600)
             try:
                 res = json.loads(p.stdout)
